@@ -29,7 +29,7 @@ void run_lenp(const char *op)
     LengthPrefixKind k = lk(aN(0));
     if (!strcmp(op, "lenp.m2s")) {
         uint64_t n = aN(4);
-        if (n <= kmax(aN(0)) && n <= (uint64_t)INT64_MAX && aHlen(3) < n) { out_s("skip"); return; }
+        if (n <= kmax(aN(0)) && n <= (uint64_t)INT64_MAX - 9 && aHlen(3) < n) { out_s("skip"); return; }
         hsnk sk; Sink snk; h_snk_make(&sk, &snk, aN(1) != 0, 2);
         ssize_t rc = flenp_memory_to_sink(k, &snk, aH(3), (size_t)n);
         out_rc(rc); out_h(sk.got, sk.len); h_snk_free(&sk);
